@@ -6,6 +6,7 @@ package main
 
 import (
 	"fmt"
+	"strings"
 
 	pipeline "github.com/buildkite/go-pipeline"
 
@@ -146,6 +147,9 @@ func runC01(c *ctx) error {
 		if len(st.Plugins) > 0 {
 			add("plugin removed", false, func(m *c01Mutation) { m.step.Plugins = m.step.Plugins[1:] })
 			add("plugin source changed", false, func(m *c01Mutation) { m.step.Plugins[0].Source += "x" })
+			add("plugin source gains the -buildkite-plugin suffix (another repository)", false, func(m *c01Mutation) {
+				m.step.Plugins[0].Source = withPluginSuffix(m.step.Plugins[0].Source)
+			})
 			add("plugin config changed", false, func(m *c01Mutation) {
 				m.step.Plugins[0].Config = map[string]any{"injected": true}
 			})
@@ -322,4 +326,12 @@ func runC01(c *ctx) error {
 	c.res.ModelRequests = total
 	c.res.Mismatches = mm
 	return err
+}
+
+// withPluginSuffix: the source with "-buildkite-plugin" appended to its name part (before any #ref).
+func withPluginSuffix(src string) string {
+	if i := strings.Index(src, "#"); i >= 0 {
+		return src[:i] + "-buildkite-plugin" + src[i:]
+	}
+	return src + "-buildkite-plugin"
 }
